@@ -337,7 +337,9 @@ class DataLoader(object):
             time_range = TimeRange.parse(time_range)
 
         if source_ids is None:
-            source_ids = self.reader.get_available_source_ids()
+            # No source filter requested: read messages from every source in the file (not just the identifiers the
+            # reader found when it sampled the first few messages of each type).
+            pass
         elif isinstance(source_ids, int):
             source_ids = {source_ids}
         else:
@@ -487,7 +489,10 @@ class DataLoader(object):
 
             self.reader.filter_in_place(time_range)
             self.reader.filter_in_place(message_types)
-            self.reader.filter_in_place(None, source_ids=source_ids)
+            if source_ids is None:
+                self.reader.requested_source_ids = None
+            else:
+                self.reader.filter_in_place(None, source_ids=source_ids)
 
             # If the user is requiring (valid) P1 timestamps, filter to those now.
             if require_p1_time and not system_time_messages_requested:
